@@ -249,3 +249,21 @@ Inductive decrypt_res := DecRaises | DecReturns (n : N).   (* PasswordType: 0 = 
 Record pdf_view := { p_is_encrypted : bool; p_decrypt_empty : decrypt_res }.
 Definition pdf_detect (v : pdf_view) : bool :=
   p_is_encrypted v && match p_decrypt_empty v with DecRaises => true | DecReturns n => n =? 0 end.
+
+(* ------------------------------------------------------------------ e-mail attachments (data_types.py:
+   EmailContent.iterate_supported_attachments) — the fourth entry point.  Per attachment the router and
+   the attachment's extractor are oracles: *)
+Inductive att :=
+| AtSkip                 (* type not supported: skipped *)
+| AtOk (n : nat)         (* extractor yields n results *)
+| AtFail (n : nat)       (* n results, then another exception: logged, next attachment *)
+| AtEnc (n : nat).       (* n results (0 for every guarded extractor), then ExtractionFileEncryptedError: re-raised *)
+Definition att_is_enc (a : att) : bool := match a with AtEnc _ => true | _ => false end.
+Definition att_yields (a : att) : nat := match a with AtSkip => O | AtOk n | AtFail n | AtEnc n => n end.
+(* (results yielded, encrypted error raised); the function has no state: every invocation is this one *)
+Fixpoint att_run (l : list att) : nat * bool :=
+  match l with
+  | [] => (O, false)
+  | AtEnc n :: _ => (n, true)
+  | a :: r => let '(k, e) := att_run r in ((att_yields a + k)%nat, e)
+  end.
